@@ -56,7 +56,7 @@ def run(rep, tier, only=None):
     shutil.copy('/verif/vf/pysym/h_c47_base.py', d)
     H = os.path.join(d, 'h_c47.py')
     names = gen(H, tier)
-    T = 240 if tier == 'quick' else 2400
+    T = 480 if tier == 'quick' else 2400
     rep.functions += ['Cython/Build/Dependencies.py: strip_string_literals (parse_code, parse_string, append_new_label), _FIND_TOKEN, '
                       '_FIND_STRING_TOKEN, _FIND_FSTRING_TOKEN']
     nfree, k, n = (2, 4, 3) if tier == 'quick' else (3, 5, 4)
